@@ -1,4 +1,5 @@
 """Per-property pipelines (what TLC checks, what it generates, what the driver runs, how events are attributed)."""
+import hashlib
 import json
 import os
 
@@ -766,7 +767,9 @@ def _c08(work, v, tier, seed):
         for k, line in enumerate(open(cases)):
             c = json.loads(line)
             # (all-gaps counting: the mode that must NOT depend on column order, unlike its exempt neighbour - always taken)
-            if k % step == (seed % step) or (c["o"]["model"] in ("pdist", "rawdist") and c["o"]["gapmode"] == 2 and c["r"][0] < 0):
+            # (sampled by a digest of the case, not by its rank: the ranks of TLC's enumeration are periodic in the options)
+            pick = int(hashlib.sha1(line.encode()).hexdigest()[:8], 16) % step == (seed % step)
+            if pick or (c["o"]["model"] in ("pdist", "rawdist") and c["o"]["gapmode"] == 2 and c["r"][0] < 0):
                 f.write(line)
     trace = vf.drive(work, "dist", cases=sub, n=250 if q else 4000, seed=seed, tier=tier, extra="rel=1", timeout=3000)
     res = vf.tlc_trace(work, "Trace_Dist", trace, cfg=write_cfg(work, "Trace_Dist.cfg", invariants=["Done"]))
